@@ -7,6 +7,15 @@ From RV Require Import Base.Wire Base.Text Lang.PyAst Lang.PySem Gen.SafeCasts L
 Import ListNotations.
 Open Scope Z_scope.
 
+(* module level of a script without function definitions: no volatile names *)
+Local Notation tstep := (ConstEnv.tstep []).
+Local Notation tblock := (ConstEnv.tblock []).
+Lemma tstep_simple0 s te st : simple s -> tstep s te st = tsimple s te st.
+Proof.
+  intro H. rewrite tstep_simple by exact H. destruct (tsimple s te st) as [[[[te1 st1] r1] f1]|]; [|reflexivity].
+  destruct s; try reflexivity; contradiction.
+Qed.
+
 (* ---------------- induction over expressions: lists, f-string parts and subscripts ---------------- *)
 Section Ind3.
   Variable P : pexpr -> Prop.
@@ -374,7 +383,7 @@ Qed.
 
 Lemma tstep_assign_res x e te st te1 st1 r1 f1 : tstep (SAssign x e) te st = Some (te1, st1, r1, f1) -> r1 = [SAssign x e].
 Proof.
-  rewrite tstep_simple by exact I. cbn [tsimple].
+  rewrite tstep_simple0 by exact I. cbn [tsimple].
   destruct (eval_const (view st te) e) as [v|k|]; [destruct v| |]; intro H; try discriminate; inj H; reflexivity.
 Qed.
 
